@@ -48,7 +48,7 @@ func (x *gen) directedDupVote() {
 	for r := 0; r < 6; r++ {
 		c.exec(fmt.Sprintf("process %d", cand.id))
 		have := false
-		for i := 0; i < len(c.net); {
+		for i := 0; i < len(c.net) && !c.stopped; {
 			if c.net[i].GetType() == pb.MsgVote {
 				have = true
 				i++
@@ -134,7 +134,7 @@ func (x *gen) directedSnapLead() {
 		c.exec(fmt.Sprintf("propose %d %d", f.id, 20+x.g.Intn(60)))
 		c.exec(fmt.Sprintf("process %d", f.id))
 		// everybody but g is served
-		for k := 0; k < len(c.net); {
+		for k := 0; k < len(c.net) && !c.stopped; {
 			if c.net[k].GetTo() == g.id || c.net[k].GetFrom() == g.id {
 				k++
 				continue
@@ -280,11 +280,11 @@ func (x *gen) directedSnapApply() {
 	}
 	if usnap() {
 		c.exec(fmt.Sprintf("sub %d", f.id))
-		for len(f.app.appendQ) > 0 && f.alive {
+		for len(f.app.appendQ) > 0 && f.alive && !c.stopped {
 			c.exec(fmt.Sprintf("appendthread %d", f.id)) // installs the snapshot, acknowledges it
 		}
 	}
-	for len(f.app.applyQ) > 0 && f.alive {
+	for len(f.app.applyQ) > 0 && f.alive && !c.stopped {
 		c.exec(fmt.Sprintf("applythread %d", f.id)) // the late acknowledgement of the old entries
 	}
 	c.exec("flush 6")
@@ -304,7 +304,7 @@ func (x *gen) directedABA() {
 	rest := x.others(l1.id)
 	f, n2 := rest[0], rest[1]
 	write := func() { // f's append thread writes everything queued; the acknowledgements are held back
-		for len(f.app.appendQ) > 0 && f.alive {
+		for len(f.app.appendQ) > 0 && f.alive && !c.stopped {
 			c.exec(fmt.Sprintf("appendthread %d hold", f.id))
 		}
 	}
@@ -346,7 +346,7 @@ func (x *gen) directedABA() {
 	x.net0()
 	// n2 serves f; of n2's traffic only heartbeats reach l1 (it learns the term, keeps its log)
 	serve := func(from *Node, only pb.MessageType) {
-		for i := 0; i < len(c.net); {
+		for i := 0; i < len(c.net) && !c.stopped; {
 			m := c.net[i]
 			if m.GetTo() == l1.id && m.GetFrom() == from.id && m.GetType() != only {
 				c.exec(fmt.Sprintf("drop %d", i))
@@ -411,7 +411,7 @@ func (x *gen) directedABA() {
 	}
 	// the third hand-out is accepted but not written yet; the old acknowledgements arrive
 	c.exec(fmt.Sprintf("sub %d", f.id))
-	for len(f.app.ackQ) > 0 && f.alive {
+	for len(f.app.ackQ) > 0 && f.alive && !c.stopped {
 		c.exec(fmt.Sprintf("ackthread %d", f.id))
 	}
 	c.exec("unblock")
